@@ -112,6 +112,7 @@ Print Assumptions C13_complete.
 
 (* ---- the validator set is the top-K ---- *)
 (* the ranking list is sorted highest power first ... *)
+From Coq Require Import Sorting.Sorted.
 Theorem C13_ranking_sorted s : Sorted (flip rank_le) (rank_desc s).
 Proof. exact (rank_desc_sorted s). Qed.
 Print Assumptions C13_ranking_sorted.
